@@ -65,22 +65,22 @@ func keySet(ks [][]byte) index.KeySet {
 var (
 	idIndex = statedb.Index[*Obj, []byte]{
 		Name:       "id",
-		FromObject: func(o *Obj) index.KeySet { return index.NewKeySet(index.Key(o.ID)) },
-		FromKey:    func(k []byte) index.Key { return index.Key(k) },
+		FromObject: func(o *Obj) index.KeySet { return index.NewKeySet(index.String(string(o.ID))) },
+		FromKey:    func(k []byte) index.Key { return index.String(string(k)) },
 		FromString: hexKey,
 		Unique:     true,
 	}
 	uIndex = statedb.Index[*Obj, []byte]{
 		Name:       "u",
 		FromObject: func(o *Obj) index.KeySet { return keySet(o.U) },
-		FromKey:    func(k []byte) index.Key { return index.Key(k) },
+		FromKey:    func(k []byte) index.Key { return index.String(string(k)) },
 		FromString: hexKey,
 		Unique:     true,
 	}
 	nIndex = statedb.Index[*Obj, []byte]{
 		Name:       "n",
 		FromObject: func(o *Obj) index.KeySet { return keySet(o.N) },
-		FromKey:    func(k []byte) index.Key { return index.Key(k) },
+		FromKey:    func(k []byte) index.Key { return index.String(string(k)) },
 		FromString: hexKey,
 		Unique:     false,
 	}
